@@ -225,7 +225,7 @@ func (w *world) durableTok() string {
 	}
 	p = append(p, fmt.Sprint(w.st.staged), fmt.Sprint(len(w.snaps.snaps)))
 	for _, s := range w.snaps.snaps {
-		p = append(p, fmt.Sprintf("%d %d %d %s %s", s.meta.Index, s.meta.Term, s.meta.ConfigurationIndex, cfgTok(unCfg(s.meta.Configuration)), intsTok(decodeState(s.data))))
+		p = append(p, fmt.Sprintf("%d %d %d %s %s %d", s.meta.Index, s.meta.Term, s.meta.ConfigurationIndex, cfgTok(unCfg(s.meta.Configuration)), intsTok(decodeState(s.data)), b2i(!s.bad)))
 	}
 	return strings.Join(p, " ")
 }
@@ -289,6 +289,8 @@ func (e event) tok() string {
 		return fmt.Sprintf("I %d %d %d %d %d %d %s %s %d %s", e.peer, e.peerID, e.term, e.lastIdx, e.lastTerm, e.cfgIdx, cfgTok(e.cfg), intsTok(e.data), b2i(e.sizeOk), fc)
 	case 'S':
 		return fmt.Sprintf("S %d %d %d", e.role, e.leader, e.leaderID)
+	case 'D':
+		return "RD"
 	}
 	return string(e.kind)
 }
@@ -301,10 +303,34 @@ func hdr(id, addr int) raft.RPCHeader {
 	return h
 }
 
+// damageOK: damaging the newest readable snapshot is a fault the server can recover from only if the
+// log still reaches down to the snapshot it falls back to (TrailingLogs kept them)
+func (w *world) damageOK() bool {
+	fb, readable := w.snaps.damageNewest(true)
+	if readable == 0 {
+		return false
+	}
+	lo, _ := w.st.InmemStore.FirstIndex()
+	hi, _ := w.st.InmemStore.LastIndex()
+	if hi == 0 || lo > fb+1 {
+		return false
+	}
+	for i := lo; i <= hi; i++ {
+		var l raft.Log
+		if w.st.InmemStore.GetLog(i, &l) != nil {
+			return false
+		}
+	}
+	return readable >= 2
+}
+
 // apply runs one event on the real server and returns the observation
 func (w *world) apply(e event) string {
-	if e.kind == 'R' {
+	if e.kind == 'R' || e.kind == 'D' {
 		w.stop()
+		if e.kind == 'D' {
+			w.snaps.damageNewest(false)
+		}
 		if !w.start() {
 			return w.obs(false, "n")
 		}
@@ -468,8 +494,16 @@ func (g *gen) initial() (curTerm, voteTerm int, candPresent bool, cand int, log 
 	if n >= 2 && r.Intn(3) == 0 {
 		si := 1 + r.Intn(n)
 		snaps = append(snaps, snapRec{idx: si, term: log[si-1].term, cfgIdx: hs[si].cfgIdx, cfg: hs[si].cfg, data: hs[si].state})
-		if r.Intn(2) == 0 { // compacted prefix
+		so := 0
+		if si >= 2 && r.Intn(2) == 0 { // an older snapshot is retained as well
+			so = 1 + r.Intn(si-1)
+			snaps = append(snaps, snapRec{idx: so, term: log[so-1].term, cfgIdx: hs[so].cfgIdx, cfg: hs[so].cfg, data: hs[so].state})
+		}
+		if r.Intn(2) == 0 { // compacted prefix (mostly not beyond the older snapshot)
 			cut := 1 + r.Intn(si)
+			if so > 0 && r.Intn(4) != 0 {
+				cut = 1 + r.Intn(so)
+			}
 			log = log[cut:]
 		}
 	}
@@ -715,6 +749,9 @@ func runHandlersCase(rng *rand.Rand, thorough bool, out *bufio.Writer, st *stats
 	tags := map[string]bool{}
 	for i := 0; i < nev && !w.dead; i++ {
 		e := g.event()
+		if e.kind == 'R' && rng.Intn(2) == 0 && (w.damageOK() || rng.Intn(40) == 0) {
+			e.kind = 'D' // the newest readable snapshot is damaged, then the restart
+		}
 		evs = append(evs, e.tok())
 		o := w.apply(e)
 		obs = append(obs, o)
